@@ -128,8 +128,8 @@ def frags_of(sc, ann):
     from peptacular.fragmentation import fragment, Fragmenter
     kw = c04._frag_kwargs(sc)
     if sc.get("entry") == "Fragmenter":
-        return Fragmenter(ann.copy(), sc["mono"]).fragment(return_type="fragment", **{k: v for k, v in kw.items() if k != "monoisotopic"})
-    return fragment(ann.copy(), return_type="fragment", **kw)
+        return Fragmenter(ann, sc["mono"]).fragment(return_type="fragment", **{k: v for k, v in kw.items() if k != "monoisotopic"})
+    return fragment(ann, return_type="fragment", **kw)
 
 
 def check_scenario(sc: Dict[str, Any], excl=()) -> Obligation:
@@ -158,7 +158,7 @@ def check_scenario(sc: Dict[str, Any], excl=()) -> Obligation:
                 SR.assume(z3.And(SR.T(v) > 0, SR.T(v) < 1000))
             ann = MM.build(sc, V)
             frs = frags_of(sc, ann)
-            M = mass(ann.copy(), charge=0, ion_type="p", monoisotopic=mono)
+            M = mass(ann, charge=0, ion_type="p", monoisotopic=mono)
         # the oracle's elements must not be the library's: formula modifications use the independent table too
         oenv = _OracleEnv(env, mono)
         ion = {}
@@ -231,7 +231,7 @@ def main(p):
     off = c05.offsets(mono)
     problems, sites = [], set()
     frs = c05.frags_of(sc, ann)
-    M = pt.mass(ann.copy(), charge=0, ion_type="p", monoisotopic=mono)
+    M = pt.mass(ann, charge=0, ion_type="p", monoisotopic=mono)
     class E:
         def aa(self, l, mono): return float(O.formula_mass(O.RESIDUES[l], mono))
         def el(self, e, mono): return float(O.isotope(e)) if MM.is_isotope_symbol(e) else float(O.mono(e) if mono else O.avg(e))
